@@ -13,7 +13,7 @@ from ..ref.jwa import RefError, jws_sign, ENC
 from ..seams import RandomSeam
 from ..history import bfs, canon_obj, canon_modules, fresh_joserfc
 from ..explorer import Stats, Divergence
-from ..sched import Scheduler, SchedulerError
+from ..sched import Scheduler, SchedulerError, Deadlock
 from .common import Outcome, Part, viol, call
 from . import c16
 from .c14 import seam as pick_seam
@@ -435,6 +435,10 @@ def h_pairs(ctx):
                 return ops()[n](fx, _ThreadDraws(f"T{i}"))
             bodies.append(body)
         results = sch.run(bodies, labels=[f"T{i}" for i in range(len(names))], seam=rseam)
+    except Deadlock as e:
+        pick_seam.uninstall()
+        rseam.uninstall()
+        return Outcome(f"{len(names)}T:pre{ctx.cost}:DEADLOCK", [viol("concurrent calls on shared objects deadlock", f"{names}: {e}; {ctx.cost} preemption(s), switches at {_switches(sch.trace)[:6]}")], nontrivial=(combo, tuple(ctx.choices[2:])))
     except BaseException:
         pick_seam.uninstall()
         rseam.uninstall()
